@@ -7,9 +7,45 @@
     the cached question is the question of the bytes, and [pp_maybe_compressed v' = false] implies
     the bytes are pointer-free - outside the three known-finding classes of DESIGN.md section 7.
 
-    Proved here: shape/frame lemmas of the operations the invariant proof will rest on. *)
+    Proved here: (i) the statement for the two operations that re-derive the whole view, on every freshly parsed
+    object: [recompute] and the decompress-first prologue of [insert_rr] never reach the consistency assertion
+    (Panic 601 / 631 of the model; `assert_eq!` in parsed_packet.rs) and leave exactly the parse of the pointer-free
+    bytes, marked as not compressed, cache empty (C08_recompute_is_fresh_parse, C08_insert_prologue_is_fresh_parse);
+    this rests on C08_decompression_keeps_edns_summary: the pointer-free packet is parsed to the same EDNS summary;
+    (ii) shape/frame lemmas of the other operations the invariant proof will rest on. *)
 From DV Require Import Model.Base Model.NameCheck Model.Parser Model.Header Model.Readers Model.Uncompress
-  Model.Mutate Proofs.Hoare Proofs.HeaderBits Proofs.InsertLemmas.
+  Model.Mutate Proofs.Hoare Proofs.HeaderBits Proofs.InsertLemmas Proofs.EdnsPlain.
+
+Theorem C08_decompression_keeps_edns_summary : forall p v q v',
+  bytes_ok p -> parse p = Ok v -> uncompress p = Ok q -> parse q = Ok v' ->
+  pp_edns_count v' = pp_edns_count v /\ pp_ext_rcode v' = pp_ext_rcode v /\ pp_edns_version v' = pp_edns_version v /\
+  pp_ext_flags v' = pp_ext_flags v /\ pp_max_payload v' = pp_max_payload v.
+Proof. exact summary_kept. Qed.
+Print Assumptions C08_decompression_keeps_edns_summary.
+
+Theorem C08_recompute_is_fresh_parse : forall p v it, bytes_ok p -> parse p = Ok v ->
+  exists q v', uncompress p = Ok q /\ parse q = Ok v' /\ pp_packet v' = q /\
+               m_recompute (v, it) = ((decompressed_view v', it), Ok tt).
+Proof. exact recompute_fresh. Qed.
+Print Assumptions C08_recompute_is_fresh_parse.
+
+Theorem C08_insert_prologue_is_fresh_parse : forall p v it, bytes_ok p -> parse p = Ok v ->
+  exists q v', uncompress p = Ok q /\ parse q = Ok v' /\ pp_packet v' = q /\
+               insert_prologue (v, it) = ((decompressed_view v', it), Ok tt).
+Proof. exact insert_prologue_fresh. Qed.
+Print Assumptions C08_insert_prologue_is_fresh_parse.
+
+(** [decompressed_view f] is [f] with the compression flag cleared and no cached question *)
+Example C08_decompressed_view_is_the_parse : forall f,
+  pp_packet (decompressed_view f) = pp_packet f /\ pp_offset_question (decompressed_view f) = pp_offset_question f /\
+  pp_offset_answers (decompressed_view f) = pp_offset_answers f /\ pp_offset_nameservers (decompressed_view f) = pp_offset_nameservers f /\
+  pp_offset_additional (decompressed_view f) = pp_offset_additional f /\ pp_offset_edns (decompressed_view f) = pp_offset_edns f /\
+  pp_edns_count (decompressed_view f) = pp_edns_count f /\ pp_ext_rcode (decompressed_view f) = pp_ext_rcode f /\
+  pp_edns_version (decompressed_view f) = pp_edns_version f /\ pp_ext_flags (decompressed_view f) = pp_ext_flags f /\
+  pp_max_payload (decompressed_view f) = pp_max_payload f /\
+  pp_maybe_compressed (decompressed_view f) = false /\ pp_cached (decompressed_view f) = None.
+Proof. intros f. unfold decompressed_view, pp_update. cbn. repeat split. Qed.
+
 
 Theorem C08_header_setters_keep_view : forall v v',
   (exists n, pp_set_tid v n = Ok v' \/ pp_set_flags v n = Ok v' \/ pp_set_rcode v n = Ok v' \/ pp_set_opcode v n = Ok v') \/
